@@ -5,7 +5,8 @@ LOG=${1:-/var/tmp/neumann-verif/all_seeds.log}
 cd /verif
 for d in seeded/*/; do
   n=$(basename $d); pid=${n%_*}
-  out=$(tools/try_seed.sh $pid /verif/$d/patch.diff 2>&1)
+  pf=/verif/$d/patch.diff; [ -f /verif/$d/patch.rebased.diff ] && pf=/verif/$d/patch.rebased.diff
+  out=$(tools/try_seed.sh $pid $pf 2>&1)
   rc=$(echo "$out" | grep -o "exit=[0-9]*" | tail -1)
   viol=$(echo "$out" | grep -c "^VIOLATION")
   und=$(echo "$out" | grep -c "^UNDECIDED")
